@@ -1,4 +1,5 @@
 """SYM — symbols.rs (SymbolId, SymbolTable) + context.rs look-up/bind entry points  (C19, C07)"""
+import re
 from vlib.unit import Unit
 
 T = 'crates/oq3_semantics/src/types.rs'
@@ -31,8 +32,9 @@ def build():
     U.file(E).item('struct', 'SemanticErrorList')
     U.file(C).item('struct', 'Context')
     U.prelude('contracts/sym.prelude.rs')
-    from units.stdgates import std_gate_spec
+    from units.stdgates import std_gate_spec, std_gate_arity_obligations
     U.raw(std_gate_spec())
+    U.raw(std_gate_arity_obligations(), note='arity table of the standard gate library: one obligation per row of the table in /repo')
 
     s.impl('SymbolId', [
         ('new', dict(ret='r', props=['C19'], spec='ensures r.0 == 0,')),
@@ -115,7 +117,8 @@ ensures''' + NEWB_POST,
     }
 }''')])),
         # flat_map / filter closures with a side effect (`new_binding` in the filter): not verified; what the include needs of it
-        ('standard_library_gates', dict(ret='r', props=['C07', 'C09', 'C13'], trusted=True, note='flat_map / filter closures capturing &mut self',
+        ('standard_library_gates', dict(ret='r', props=['C07', 'C09', 'C13'], trusted=True, hash_strip=[re.compile(r'\(\s*vec!\[[^\]]*\]\s*,\s*\[\s*\d+\s*,\s*\d+\s*\]\s*,?\s*\)'), re.compile(r'\bg\d+q\d+p\b')],      # (rows, and the row variables named after their arity)
+             note='flat_map / filter closures capturing &mut self (the frame is pinned; the rows of the gate table are checked one by one: std_gate_table_rows)',
                                         spec='''requires old(self).wf(),
 ensures final(self).wf(), final(self).depth() == old(self).depth(),
     // every gate of the library is bound afterwards (by this call, or it was bound before: then its name is returned)
